@@ -221,7 +221,7 @@ def shape_strategy():
     @st.composite
     def deff(draw):
         n = draw(name)
-        k = draw(st.integers(0, 6))
+        k = draw(st.integers(0, 10))
         w = draw(ws)
         params = draw(st.lists(name, max_size=3, unique=True))
         deco = draw(st.sampled_from(['', '@staticmethod\n', '@a.b(c)\n', '@x\n@y\n']))
@@ -234,6 +234,23 @@ def shape_strategy():
             return 'def \\\n    %s(%s): pass' % (n, ', '.join(params))
         if k == 5:
             return 'class \\\n  %s: pass' % n
+        if k == 7:
+            # the name directly followed by a line continuation
+            return draw(st.sampled_from(['def %s\\\n  (%s): pass', 'async def %s\\\n(%s): pass'])) % (n, ', '.join(params))
+        if k == 8:
+            return draw(st.sampled_from(['class %s\\\n  (object): pass', 'class %s\\\n: pass', 'class %s\\\n  : %s = 1' % ('%s', n)])) % n
+        if k == 9:
+            # PEP 695 type-parameter lists (name directly followed by `[`; whatever supp reports for the parameters must be an identifier)
+            tp = draw(st.sampled_from(['T', 'T, U', 'T, *Ts', 'T, * Ts, ** P', '*Ts', '**P', 'T: int', 'T: (int, str)']))
+            if draw(st.booleans()):
+                return 'def %s[%s](%s): return %s' % (n, tp, ', '.join(params), n)
+            return 'class %s[%s]: pass' % (n, tp)
+        if k == 10:
+            # match statement: captures of every pattern kind, the mapping rest in several spellings
+            a, b, c = draw(name), draw(name), draw(name)
+            rest = draw(st.sampled_from(['**%s}', '**%s }', '** %s}', '**%s,}', '**%s , }', '**%s\n    }']))
+            return 'match %s:\n    case {"k": %s, %s: pass\n    case [%s, *%s] | (%s, %s): pass\n    case C(%s, y=%s) as %s: pass\n    case _: pass' % (
+                n, a, rest % b, a, b, a, b, c, a, b)
         return 'def %s(%s=%s, *%s, **%s): return %s' % (n, 'p', n, 'va', 'kw', n)
 
     @st.composite
